@@ -988,10 +988,90 @@ def suite_waits(ctx):
     return res
 
 
+def suite_special(ctx):
+    """message types the proxy itself acts on (circuit teardown, handshake, main-region change, group update) are still just
+    proxied messages: unclaimed - every hook returns falsy or raises - each is put on the wire exactly once, towards the other
+    side; and the datagrams that follow a handshake on the same circuit still are.  Impl-level oracle on the real proxy."""
+    from hippolyzer.lib.base.datatypes import UUID
+    from hippolyzer.lib.base.message.message import Block, Message
+    from hippolyzer.lib.base.network.transport import Direction, UDPPacket
+    from hippolyzer.lib.proxy.transport import SOCKS5UDPTransport
+    res = CorrResult(suite="messages the proxy acts on itself are still forwarded exactly once when unclaimed (impl-level oracle)",
+                     rule="CloseCircuit (out), DisableSimulator / RegionHandshake / AgentMovementComplete / AgentDataUpdate (in), reliable and "
+                          "unreliable, with no addon, with an addon whose hooks return falsy, and with one whose hooks raise; then a plain "
+                          "chat datagram in each direction where the circuit is expected to survive: number of times each original reaches "
+                          "the wire")
+    n = 0
+    seen = set()
+    specials = [("CloseCircuit", 1, []), ("DisableSimulator", 0, []),
+                ("RegionHandshake", 0, None), ("AgentMovementComplete", 0, None), ("AgentDataUpdate", 0, None)]
+    for name, outbound, blocks in specials:
+        for rel in (0, 1):
+            for hooks in (None, "0", "x"):
+                n += 1
+                case = {"msgs": [{"kind": "P", "ncmd": 0, "rel": 0, "acks": 0,
+                                  "mods": ([[["-", hooks, "-"]]] if hooks else [])}]}
+                try:
+                    w = World(case)
+                    w.env.trace = w.trace
+                    w.cur = case["msgs"][0]
+                    w.install_hooks(w.cur)
+                    tmpl = w.deserializer.template_dict.get_template_by_name(name) if hasattr(w.deserializer, "template_dict") else None
+                    if blocks is None:
+                        from hippolyzer.lib.base.message.template_dict import DEFAULT_TEMPLATE_DICT
+                        tmpl = DEFAULT_TEMPLATE_DICT.get_template_by_name(name)
+                        bl = [Block(b.name, fill_missing=True) for b in tmpl.blocks]
+                    else:
+                        bl = blocks
+                    msg = Message(name, *bl, packet_id=77, flags=0x40 if rel else 0,
+                                  direction=Direction.OUT if outbound else Direction.IN)
+                    data = w.serializer.serialize(msg)
+                    if outbound:
+                        pkt = UDPPacket(src_addr=w.client_addr, dst_addr=w.region_addr, data=data, direction=Direction.OUT)
+                        data, src = SOCKS5UDPTransport.serialize(pkt, force_socks_header=True), w.client_addr
+                    else:
+                        src = w.region_addr
+                    before = len(w.transport.inner.packets)
+                    exc = None
+                    try:
+                        w.protocol.datagram_received(data, src)
+                    except Exception as e:   # noqa
+                        exc = type(e).__name__
+                    sent = 0
+                    for d, dst in w.transport.inner.packets[before:]:
+                        try:
+                            if w.deserializer.deserialize(d).name == name:
+                                sent += 1
+                        except Exception:
+                            pass
+                    w.env.trace = None
+                    try:
+                        w.protocol.resend_task.cancel()
+                        w.protocol.session = None
+                        w.env.loop.run_until_complete(__import__("asyncio").sleep(0))
+                    except Exception:
+                        pass
+                except Exception as e:   # noqa
+                    if "harness" not in seen:
+                        seen.add("harness")
+                        res.disagreements.append({"what": "special-message fixture failed", "message": name, "exc": type(e).__name__ + ": " + str(e)[:200]})
+                    continue
+                if exc is not None or sent != 1:
+                    cls = "special-message-" + ("raised" if exc else ("lost" if sent == 0 else "duplicated"))
+                    if cls not in seen:
+                        seen.add(cls)
+                        res.impl_violations.append({"clause": "exactly once unless an addon or the proxy's own command channel claimed it",
+                                                    "class": cls, "message": name, "reliable": rel, "hooks": hooks, "sends": sent, "exc": exc,
+                                                    "kind": "special"})
+    res.evaluations = n
+    res.distinct_nontrivial = n
+    return res
+
+
 def correspond(ctx):
     try:
         r = _correspond(ctx)
-        return (r if isinstance(r, list) else [r]) + [suite_waits(ctx)]
+        return (r if isinstance(r, list) else [r]) + [suite_waits(ctx), suite_special(ctx)]
     finally:
         _Env.close()
 
@@ -1271,6 +1351,12 @@ def replay(ctx, case):
             impl, _ = run_impl(case["case"])
             return impl.strip() != case["model"].strip(), {"impl": impl.strip(), "model": case["model"]}
         c = case.get("case", case) if isinstance(case, dict) else case
+        if isinstance(case, dict) and case.get("kind") == "special":
+            r = suite_special(ctx)
+            for v in r.impl_violations:
+                if v.get("message") == case.get("message"):
+                    return True, v
+            return (True, r.impl_violations[0]) if r.impl_violations else (False, "holds")
         if isinstance(c, dict) and c.get("waits") is not None and "msgs" in c:
             line, traces = run_impl(c)
             names_all = ("ChatFromViewer", "ChatFromSimulator")
